@@ -138,7 +138,8 @@ NAMESPACES = {'Lemmas.MiniPyFuel': 'Bridge.Py',
               'Lemmas.RegexMsgBidA': 'Bridge.RegexMsgBid', 'Lemmas.RegexMsgBidB': 'Bridge.RegexMsgBid', 'Lemmas.RegexMsgBidC': 'Bridge.RegexMsgBid',
               'Lemmas.RegexMsgBidD': 'Bridge.RegexMsgBid',
               'Translated.MsgParsersA': 'Bridge.Translated.MsgParsers', 'Translated.MsgParsersC': 'Bridge.Translated.MsgParsers',
-              'Translated.MsgParsersD': 'Bridge.Translated.MsgParsers', 'Translated.ThreadsMainE': 'Bridge.Translated.MainE',
+              'Translated.MsgParsersD': 'Bridge.Translated.MsgParsers', 'Translated.MsgParsersE': 'Bridge.Translated.MsgParsers', 'Translated.MsgParsersF': 'Bridge.Translated.MsgParsers',
+              'Translated.ThreadsMainF': 'Bridge.Translated.MainA', 'Translated.ThreadsMainE': 'Bridge.Translated.MainE',
               'Lemmas.RegexMsgHandA': 'Bridge.RegexMsgHand', 'Lemmas.RegexMsgHandB': 'Bridge.RegexMsgHand',
               'Translated.HandParsersA': 'Bridge.Translated.HandParsers', 'Translated.HandParsersB': 'Bridge.Translated.HandParsers',
               'Translated.HandParsersC': 'Bridge.Translated.HandParsers', 'Translated.HandParsersD': 'Bridge.Translated.HandParsers',
